@@ -96,7 +96,7 @@ def main():
         props = claimed()
         def one(nm):
             return nm, with_change("patch", os.path.join(VERIF, "seeded", nm, "patch.diff"), props)
-        with ThreadPoolExecutor(8) as ex:
+        with ThreadPoolExecutor(14) as ex:
             for nm, res in ex.map(one, names):
                 meta = json.load(open(os.path.join(VERIF, "seeded", nm, "meta.json")))
                 print(f"{nm} (breaks {meta['property']}): {fmt(res)}")
@@ -109,7 +109,7 @@ def main():
             props = sorted(cl)
             return r, with_change("revert", r["commit"], props)
         miss = 0
-        with ThreadPoolExecutor(8) as ex:
+        with ThreadPoolExecutor(14) as ex:
             for r, res in ex.map(one, recs):
                 own = r["property"]
                 ok = isinstance(res.get(own), tuple) and res[own][0] == 1
